@@ -94,6 +94,9 @@ func propC02(c *Ctx, r *Report) {
 	r.Clauses = append(r.Clauses, "merge before branch (E28, go/cfg must-analysis): in every function of the SPIR-V emitter, on every control-flow path to the emission of an OpBranchConditional or OpSwitch terminator an OpSelectionMerge / OpLoopMerge has been emitted before (directly, through a builder method or through a local closure)")
 	c.runMergeFirst(r, "spirv.mergefirst")
 	r.floor("spirv.mergefirst", 6)
+	r.Clauses = append(r.Clauses, "block open/close typestate (E28, go/cfg): in no function of the SPIR-V emitter is consumeBlock reached on a path on which the current block is definitely closed, nor setCurrentBlock on a path on which a block opened in that function is definitely still open (every block is terminated exactly once and none is dropped)")
+	c.runBlockState(r, "spirv.blockstate")
+	r.floor("spirv.blockstate", 30)
 	r.Clauses = append(r.Clauses, "version bump (E23): every call that raises the module's SPIR-V version to 1.4 or later sits in a function that also updates the options' Version field, which selects the 1.4 OpEntryPoint interface rule")
 	c.runVersionBump(r, "version.bump14")
 	r.floor("version.bump14", 1)
